@@ -182,16 +182,10 @@ Definition rn_equiv (a b : option (Z * Q * Q)) : Prop :=
 Definition trim_equiv (r1 r2 : trim) : Prop :=
   t_svals r1 = t_svals r2 /\ t_err2 r1 == t_err2 r2 /\ rn_equiv (t_rn r1) (t_rn r2).
 
-Lemma renorm_pow_map : forall m s, is_sum_mode m = true ->
-  map (fun x => if (2 <=? mode_pow m)%Z then Qpower x (mode_pow m) else x) s = map (powq (mode_pow m)) s
-  /\ (if (2 <=? mode_pow m)%Z then mode_pow m else 1%Z) = mode_pow m.
-Proof. intros m s H. destruct m; try discriminate H; split; reflexivity. Qed.
-
 Theorem trim_agree : forall m c mb rn s, nonneg s -> s <> [] -> (mb = -1 \/ 1 <= mb)%Z ->
-  ((rn <= 0)%Z \/ (is_sum_mode m = true /\ rn = mode_pow m)) ->
-  exists r, g_trim m c mb rn s = Some r /\ trim_equiv r (n_trim m c mb rn s).
+  trim_equiv (g_trim m c mb rn s) (n_trim m c mb rn s).
 Proof.
-  intros m c mb rn s Hs Hne Hmb Hrn.
+  intros m c mb rn s Hs Hne Hmb.
   pose proof (dyn_agree m c s Hs Hne) as D. pose proof (n_dyn_ge1 m c s) as N1. pose proof (lenZ_pos s Hne) as D1.
   unfold g_trim, n_trim, g_nchi.
   destruct (Qltb 0 c || (0 <? rn)%Z) eqn:Edyn.
@@ -203,41 +197,22 @@ Proof.
     + assert (Hnn : nn = ng) by lia. rewrite Hnn, Eg.
       assert (Hng1 : (1 <= ng)%Z) by (unfold ng; destruct (0 <? mb)%Z eqn:E; lia).
       destruct (0 <? rn)%Z eqn:Ern.
-      * destruct Hrn as [Hrn|[Hm Hrn]]; [lia|]. rewrite Hm. eexists. split; [reflexivity|].
-        unfold trim_equiv. cbn [t_svals t_rn t_err2]. split; [reflexivity|]. split; [reflexivity|].
-        unfold n_renorm, rn_equiv. subst rn.
-        destruct (renorm_pow_map m s Hm) as [Emap Ep]. rewrite Emap, Ep.
-        split; [reflexivity|]. split.
-        -- rewrite cumsum_last0. rewrite sumQ_firstn_skipn. reflexivity.
-        -- rewrite cumsum_nth by (rewrite map_length; unfold lenZ in *; lia).
-           replace (S (Z.to_nat (ng - 1))) with (Z.to_nat ng) by lia. lra.
-      * eexists. split; [reflexivity|]. unfold trim_equiv. cbn [t_svals t_rn t_err2 rn_equiv].
-        split; [reflexivity|]. split; [reflexivity|exact I].
+      * unfold trim_equiv. cbn [t_svals t_rn t_err2]. split; [reflexivity|]. split; [reflexivity|].
+        unfold n_renorm, rn_equiv. split; [reflexivity|]. split.
+        -- rewrite sumQ_firstn_skipn. reflexivity.
+        -- unfold py_take. destruct (ng <? 0)%Z eqn:E0; [lia|]. reflexivity.
+      * unfold trim_equiv. cbn [t_svals t_rn t_err2 rn_equiv]. split; [reflexivity|]. split; [reflexivity|exact I].
     + assert (Enn : (nn <? lenZ s)%Z = false) by lia. rewrite Enn.
-      eexists. split; [reflexivity|]. unfold trim_equiv. cbn [t_svals t_rn t_err2 rn_equiv].
-      split; [reflexivity|]. split; [reflexivity|exact I].
+      unfold trim_equiv. cbn [t_svals t_rn t_err2 rn_equiv]. split; [reflexivity|]. split; [reflexivity|exact I].
   - (* static branch *)
     assert (Ern : (0 <? rn)%Z = false) by (apply orb_false_iff in Edyn; tauto).
     destruct (0 <? mb)%Z eqn:Emb.
     + assert (Eneq : negb (mb =? -1)%Z = true) by lia. rewrite Eneq. cbn [andb].
       destruct (mb <? lenZ s)%Z eqn:E.
-      * rewrite Ern. eexists. split; [reflexivity|]. unfold trim_equiv. cbn [t_svals t_rn t_err2 rn_equiv].
-        split; [reflexivity|]. split; [reflexivity|exact I].
-      * eexists. split; [reflexivity|]. unfold trim_equiv. cbn [t_svals t_rn t_err2 rn_equiv].
-        split; [reflexivity|]. split; [reflexivity|exact I].
+      * rewrite Ern. unfold trim_equiv. cbn [t_svals t_rn t_err2 rn_equiv]. split; [reflexivity|]. split; [reflexivity|exact I].
+      * unfold trim_equiv. cbn [t_svals t_rn t_err2 rn_equiv]. split; [reflexivity|]. split; [reflexivity|exact I].
     + assert (Eneq : negb (mb =? -1)%Z = false) by lia. rewrite Eneq. cbn [andb].
-      rewrite Z.ltb_irrefl. eexists. split; [reflexivity|]. unfold trim_equiv. cbn [t_svals t_rn t_err2 rn_equiv].
-      split; [reflexivity|]. split; [reflexivity|exact I].
-Qed.
-
-(* the generic routine has no renormalisation for abs / rel: it raises *)
-Theorem generic_absrel_renorm_raises : forall m c mb rn s,
-  is_sum_mode m = false -> (0 < rn)%Z -> (g_nchi m c mb rn s < lenZ s)%Z ->
-  g_trim m c mb rn s = None.
-Proof.
-  intros m c mb rn s Hm Hrn Hn. unfold g_trim.
-  assert (E1 : (g_nchi m c mb rn s <? lenZ s)%Z = true) by lia.
-  assert (E2 : (0 <? rn)%Z = true) by lia. rewrite E1, E2, Hm. reflexivity.
+      rewrite Z.ltb_irrefl. unfold trim_equiv. cbn [t_svals t_rn t_err2 rn_equiv]. split; [reflexivity|]. split; [reflexivity|exact I].
 Qed.
 
 (* -------------------------------------------------------- reported error *)
@@ -262,17 +237,16 @@ Proof.
     pose proof (py_take_drop_sumsq mb s ltac:(lia)). lra.
 Qed.
 
-Theorem generic_error_is_discarded_weight : forall m c mb rn s r, (mb = -1 \/ 1 <= mb)%Z ->
-  g_trim m c mb rn s = Some r -> t_err2 r == sumsq s - sumsq (t_svals r).
+Theorem generic_error_is_discarded_weight : forall m c mb rn s, (mb = -1 \/ 1 <= mb)%Z ->
+  let r := g_trim m c mb rn s in t_err2 r == sumsq s - sumsq (t_svals r).
 Proof.
-  intros m c mb rn s r Hmb. unfold g_trim.
+  intros m c mb rn s Hmb r. unfold r, g_trim.
   assert (N1 : (1 <= g_nchi m c mb rn s)%Z \/ (lenZ s <= g_nchi m c mb rn s)%Z).
   { unfold g_nchi. destruct (Qltb 0 c || (0 <? rn)%Z); destruct (0 <? mb)%Z eqn:E; lia. }
   destruct (g_nchi m c mb rn s <? lenZ s)%Z eqn:E.
   - pose proof (py_take_drop_sumsq (g_nchi m c mb rn s) s ltac:(lia)) as S.
-    destruct (0 <? rn)%Z; [destruct (is_sum_mode m); [|discriminate]|];
-      intro H; inversion H; subst r; cbn [t_err2 t_svals]; lra.
-  - intro H; inversion H; subst r; cbn [t_err2 t_svals]; lra.
+    destruct (0 <? rn)%Z; cbn [t_err2 t_svals]; lra.
+  - cbn [t_err2 t_svals]. lra.
 Qed.
 
 (* ------------------------------------------------------------ renorm factor *)
@@ -304,26 +278,11 @@ Lemma count_agree_stmt : forall m cutoff s, nonneg s -> s <> [] ->
   /\ (0 <= cutoff -> Z.max (g_nchi_dynamic m cutoff s) 1 = n_nchi_dynamic m cutoff s).
 Proof. intros m cutoff s Hs Hne. split; [apply dyn_agree; assumption|apply dyn_agree_exact; assumption]. Qed.
 
-Lemma trim_agree_refuted :
-  (exists m cutoff max_bond renorm s rg fg,
-     nonneg s /\ sorted_desc s /\ g_trim m cutoff max_bond renorm s = Some rg /\ t_rn rg = Some fg
-     /\ exists fn, t_rn (n_trim m cutoff max_bond renorm s) = Some fn /\ rn_same_factor fg fn = false)
-  /\ (forall m cutoff max_bond renorm s, is_sum_mode m = false -> (0 < renorm)%Z ->
-        (g_nchi m cutoff max_bond renorm s < lenZ s)%Z -> g_trim m cutoff max_bond renorm s = None).
-Proof.
-  split; [|exact generic_absrel_renorm_raises].
-  exists RSum2, (6 # 100), (-1)%Z, 1%Z, [4 # 1; 2 # 1; 1 # 1; 1 # 2]. eexists. eexists.
-  split; [repeat constructor; unfold Qle; cbn; discriminate|].
-  split; [repeat constructor; unfold Qle; cbn; discriminate|].
-  split; [vm_compute; reflexivity|]. split; [reflexivity|].
-  eexists. split; [vm_compute; reflexivity|]. vm_compute. reflexivity.
-Qed.
-
 Lemma error_stmt : forall m cutoff max_bond renorm s, (max_bond = -1 \/ 1 <= max_bond)%Z ->
   (let r := n_trim m cutoff max_bond renorm s in t_err2 r == sumsq s - sumsq (t_svals r))
-  /\ (forall r, g_trim m cutoff max_bond renorm s = Some r -> t_err2 r == sumsq s - sumsq (t_svals r)).
+  /\ (let r := g_trim m cutoff max_bond renorm s in t_err2 r == sumsq s - sumsq (t_svals r)).
 Proof.
   intros m cutoff max_bond renorm s H. split.
   - exact (numba_error_is_discarded_weight m cutoff max_bond renorm s H).
-  - intros r. exact (generic_error_is_discarded_weight m cutoff max_bond renorm s r H).
+  - exact (generic_error_is_discarded_weight m cutoff max_bond renorm s H).
 Qed.
